@@ -18,6 +18,7 @@ PRIMS = {  # name: (size, kind, chr (arrays accept bytes/str), ischar (CT_PRIMIT
     "float": (4, "f", 0, 0), "double": (8, "d", 0, 0), "char16_t": (2, "u16", 1, 1),
     "wchar_t": (4, "u32", 1, 1), "void *": (8, "ptr", 0, 0), "_Bool": (1, "bool", 0, 0),
 }
+GUARD = 256
 BITFIELD_TYPES = ["unsigned char", "short", "int", "unsigned int", "long long", "unsigned short"]
 
 
@@ -57,9 +58,14 @@ class Lab:
         ffi = self.ffi
 
         def alloc(n):
+            # the block handed to cffi is followed by a guard area, so that a write past the requested
+            # size is observed instead of corrupting the heap
             self.sizes.append(n)
-            b = ffi.new("char[]", max(n, 1))
+            b = ffi.new("char[]", n + GUARD)
+            ffi.buffer(b)[n:] = b"\xA5" * GUARD
+            self.blocks.append(b)
             return b
+        self.blocks = []
         self.new_alloc = ffi.new_allocator(alloc=alloc, free=lambda p: None, should_clear_after_alloc=True)
         self.targets = [ffi.new("char[8]") for _ in range(3)]
 
@@ -134,13 +140,13 @@ class Lab:
     # ------------------------------------------------------------ type record for the specification
     def rec(self, t):
         if isinstance(t, Prim):
-            return {"k": "prim", "size": t.size, "chr": t.chr, "ischar": t.ischar}
+            return {"k": "prim", "size": t.size, "chr": t.chr, "ischar": t.ischar, "cn": t.name}
         if isinstance(t, Arr):
             item = self.rec(t.item)
             if item["size"] < 0:
                 raise core.MachineryError("generator: array of unsized items")
             return {"k": "arr", "item": item, "len": -1 if t.n is None else t.n, "isz": item["size"],
-                    "size": -1 if t.n is None else t.n * item["size"]}
+                    "size": -1 if t.n is None else t.n * item["size"], "cn": self.cname(t)}
         if getattr(t, "_rec", None) is not None:
             return t._rec
         ct = self.ffi.typeof("%s %s" % (t.kw, t.tag))
@@ -155,7 +161,7 @@ class Lab:
                            "sh": f.bitshift if bits is not None else 0})
             if bits is not None and f.bitsize != bits:
                 raise core.MachineryError("bit-field size mismatch in %s.%s" % (t.tag, name))
-        r = {"k": "struct", "size": self.ffi.sizeof(ct), "fields": fields}
+        r = {"k": "struct", "size": self.ffi.sizeof(ct), "fields": fields, "cn": "%s %s" % (t.kw, t.tag)}
         t._rec = r
         return r
 
@@ -353,66 +359,88 @@ class Lab:
         return d, mk("dict", items=items)
 
     # ------------------------------------------------------------ length-only twin of an initializer
-    def lens_only(self, t, r, init):
-        """Python dict giving every open array reached by `init` its length and nothing else."""
-        flat = self.flatten(t)
+    def lens_only(self, r, init):
+        """Python dict giving every open array reached by `init` its length and nothing else (r: type record)."""
         if init["k"] == "seq":
-            ctor = [i for i, f in enumerate(flat) if not f[3]]
-            pairs = [(ctor[j], it) for j, it in enumerate(init["items"])]
+            ctor = [f for f in r["fields"] if f["ctor"]]
+            pairs = list(zip(ctor, init["items"]))
         elif init["k"] == "dict":
-            names = [f[0] for f in flat]
-            pairs = [(names.index(e["name"]), e["v"]) for e in init["items"]]
+            byname = {f["name"]: f for f in r["fields"]}
+            pairs = [(byname[e["name"]], e["v"]) for e in init["items"]]
         else:
             return {}
         out = {}
-        for i, v in pairs:
-            name, mt, _b, _ig = flat[i]
-            if isinstance(mt, Arr) and mt.n is None:
-                out[name] = {"seq": len(v["items"]), "str": len(v["b"]) + 1, "len": v["n"]}[v["k"]]
-            elif self.with_var(mt) and v["k"] != "copy":
-                out[name] = self.lens_only(mt, r["fields"][i]["t"], v)
+        for f, v in pairs:
+            ft = f["t"]
+            if ft["k"] == "arr" and ft["len"] < 0:
+                out[f["name"]] = {"seq": len(v["items"]), "str": len(v["b"]) + 1, "len": v["n"]}[v["k"]]
+            elif rec_with_var(ft) and v["k"] != "copy":
+                out[f["name"]] = self.lens_only(ft, v)
         return out
+
+    def source_for(self, t):
+        return "".join("%s %s { %s };\n" % (a.kw, a.tag, self.body(a)) for a in self.named_aggs(t, []))
 
     # ------------------------------------------------------------ execution
     def run_case(self, t, pyinit, init, desc):
         """t: Agg (ffi.new('X *')), Prim (ffi.new('T *')) or Arr (ffi.new('T[n]')).  Returns the record."""
-        ffi = self.ffi
-        r = self.rec(t)
         isptr = not isinstance(t, Arr)
-        cdecl = self.cname(t) + (" *" if isptr else "")
+        how = {"cdecl": self.cname(t) + (" *" if isptr else ""), "isptr": isptr, "cdef": self.source_for(t)}
+        if not isptr:
+            how["open_decl"] = self.cname(Arr(t.item, None))
+            how["ptr_tmpl"] = self.declarator(Arr(t.item, 987654321), "(*)").replace(" (*)", "(*)")
+        return self.run_record(self.rec(t), how, pyinit, init, desc)
+
+    def run_record(self, r, how, pyinit, init, desc):
+        """the three executions of one construction, from the type record and the declaration strings only"""
+        ffi = self.ffi
+        cdecl, isptr = how["cdecl"], how["isptr"]
         none = init["k"] == "none"
         rec = {"T": r, "isptr": isptr, "init": init, "alloc": -1, "sizeof": -1, "bytes1": [], "err1": "",
-               "haslaw": False, "bytes2": [], "err2": "", "cdecl": cdecl, "desc": desc}
+               "haslaw": False, "bytes2": [], "err2": "", "guard": True, "cdecl": cdecl, "desc": desc, "how": how}
         args = () if none else (pyinit,)
+        # 1. through a custom allocator: observes the requested size and any write past it
+        n0 = len(self.sizes)
+        del self.blocks[:]
+        try:
+            pa = self.new_alloc(cdecl, *args)
+        except Exception as e:
+            rec["err1"] = type(e).__name__
+            del self.sizes[:]
+            return rec
+        if len(self.sizes) != n0 + 1:
+            raise core.MachineryError("allocator callback not called exactly once")
+        rec["alloc"] = self.sizes[-1]
+        block = bytes(ffi.buffer(self.blocks[-1]))
+        rec["guard"] = block[rec["alloc"]:] == b"\xA5" * GUARD
+        rec["bytes_alloc"] = list(block[:rec["alloc"]])
+        del self.sizes[:]
+        if not rec["guard"]:
+            return rec            # do not repeat the overflow on the real heap
+        # 2. plain ffi.new
         try:
             p1 = ffi.new(cdecl, *args)
         except Exception as e:
             rec["err1"] = type(e).__name__
             return rec
         rec["bytes1"] = list(bytes(ffi.buffer(p1)))
-        if isinstance(t, Agg):
+        if r["k"] == "struct":
             rec["sizeof"] = ffi.sizeof(p1[0])
-        elif isinstance(t, Arr):
+        elif r["k"] == "arr":
             rec["sizeof"] = ffi.sizeof(p1)
-        n0 = len(self.sizes)
-        pa = self.new_alloc(cdecl, *args)
-        if len(self.sizes) != n0 + 1:
-            raise core.MachineryError("allocator callback not called exactly once")
-        rec["alloc"] = self.sizes[-1]
-        rec["bytes_alloc"] = list(bytes(ffi.buffer(pa)))
-        del self.sizes[:]
-        if none or (isinstance(t, Arr) and t.n is None and init["k"] == "len"):
+        if none or (r["k"] == "arr" and r["len"] < 0 and init["k"] == "len"):
             return rec
+        # 3. allocate (sized, uninitialized), then assign
         rec["haslaw"] = True
         try:
-            if isinstance(t, Arr):
+            if r["k"] == "arr":
                 n = len(rec["bytes1"]) // r["isz"] if r["isz"] else 0
-                a = ffi.new(self.cname(Arr(t.item, None)), n)
-                ffi.cast(self.declarator(Arr(t.item, n), "(*)").replace(" (*)", "(*)"), a)[0] = pyinit
+                a = ffi.new(how["open_decl"], n)
+                ffi.cast(how["ptr_tmpl"].replace("987654321", str(n)), a)[0] = pyinit
                 rec["bytes2"] = list(bytes(ffi.buffer(a)))
             else:
-                if isinstance(t, Agg) and self.with_var(t):
-                    p2 = ffi.new(cdecl, self.lens_only(t, r, init))
+                if rec_with_var(r):
+                    p2 = ffi.new(cdecl, self.lens_only(r, init))
                 else:
                     p2 = ffi.new(cdecl)
                 p2[0] = pyinit
@@ -422,8 +450,56 @@ class Lab:
         return rec
 
 
+def rec_with_var(r):
+    return r["k"] == "struct" and any((f["t"]["k"] == "arr" and f["t"]["len"] < 0) or rec_with_var(f["t"])
+                                      for f in r["fields"])
+
+
+SIGNED = {"signed char", "short", "int", "long long"}
+
+
+def render_record(ffi, keep, r, init):
+    """the Python initializer for an initializer tree, from the type record alone (used by --replay)"""
+    k = init["k"]
+    if k == "leaf":
+        b = bytes(init["b"])
+        cn = r["cn"]
+        kind = PRIMS[cn][1]
+        if kind in "bBhHiIqQfd" and len(kind) == 1:
+            return struct.unpack("<" + kind, b)[0]
+        x = int.from_bytes(b, "little")
+        return {"char": b, "u16": chr(x) if x < 0x110000 else x, "u32": chr(x) if x < 0x110000 else x,
+                "ptr": ffi.cast("void *", x), "bool": x}[kind]
+    if k == "len":
+        return init["n"]
+    if k == "str":
+        return bytes(init["b"]) if init["n"] == 1 else "".join(map(chr, init["b"]))
+    if k == "copy":
+        cd = ffi.new(r["cn"] + ("*" if r["k"] == "struct" else ""))
+        ffi.buffer(cd)[:] = bytes(init["b"])
+        keep.append(cd)
+        return cd[0] if r["k"] == "struct" else cd
+
+    def field(f, v):
+        if f["bs"] >= 0:
+            x = sum(bit << i for i, bit in enumerate(v["b"]))
+            if f["t"]["cn"] in SIGNED and v["b"] and v["b"][-1]:
+                x -= 1 << f["bs"]
+            return x
+        return render_record(ffi, keep, f["t"], v)
+    if k == "seq":
+        if r["k"] == "arr":
+            return [render_record(ffi, keep, r["item"], it) for it in init["items"]]
+        ctor = [f for f in r["fields"] if f["ctor"]]
+        return [field(f, it) for f, it in zip(ctor, init["items"])]
+    if k == "dict":
+        byname = {f["name"]: f for f in r["fields"]}
+        return {e["name"]: field(byname[e["name"]], e["v"]) for e in init["items"]}
+    raise core.MachineryError("cannot render initializer kind %r" % k)
+
+
 def strip(rec):
-    return {k: v for k, v in rec.items() if k not in ("cdecl", "desc", "bytes_alloc", "init_kind")}
+    return {k: v for k, v in rec.items() if k not in ("cdecl", "desc", "bytes_alloc", "init_kind", "how")}
 
 
 def describe(t, init, lab):
